@@ -131,6 +131,9 @@ def strategy(tier):
     return st.fixed_dictionaries({
         'aio': st.booleans(), 'async_handlers': st.booleans(),
         'coro': st.booleans(),
+        # (with always_connect a client is connected as soon as its CONNECT
+        # has been answered, i.e. before its connect handler has decided)
+        'always_connect': st.sampled_from([False, False, True]),
         # the catch-all namespace has a function handler for an event no
         # client ever sends (it is responsible for nothing here)
         'star_other': st.booleans(),
@@ -155,7 +158,8 @@ def responsible(ns, name):
 
 def check_case(case):
     w = World(aio=case['aio'], bg='collect', namespaces=NSS,
-              async_handlers=case['async_handlers'])
+              async_handlers=case['async_handlers'],
+              always_connect=bool(case.get('always_connect')))
     try:
         return _run(case, w)
     finally:
@@ -382,6 +386,21 @@ def _run(case, w):
                 want_tags.append(tag)
                 if eid is not None:
                     want_acks.append((c['ns'], eid, ['cw%d' % tag]))
+            if case.get('always_connect') and \
+                    responsible(nsb, 'a') is not None:
+                # the connecting client itself is connected already (its
+                # CONNECT was answered before the handler was called)
+                for i in range(op['n']):
+                    tag += 1
+                    rets[tag] = 'cw%d' % tag
+                    eid = 600 + i if op['ids'] else None
+                    frames += wire.frames(wire.EVENT, nsb, eid,
+                                          ['a', {'__tag': tag}, i])
+                    want_tags.append(tag)
+                    if eid is not None:
+                        want_acks.append((nsb, eid, ['cw%d' % tag]))
+                labels['events_of_always_connect_client_during_its_'
+                       'connect_handler'] = True
             log.clear()
             w.recv_all()
             eio_sid = w.t[c['t']]
